@@ -15,12 +15,14 @@ import (
 	"fmt"
 	"strings"
 	"testing"
+	"time"
 
 	"github.com/go-logr/logr"
 	"k8s.io/apimachinery/pkg/api/meta"
 	metav1 "k8s.io/apimachinery/pkg/apis/meta/v1"
 	"k8s.io/apimachinery/pkg/runtime"
 	"k8s.io/apimachinery/pkg/types"
+	"k8s.io/client-go/util/retry"
 	ctrl "sigs.k8s.io/controller-runtime"
 	"sigs.k8s.io/controller-runtime/pkg/client"
 
@@ -277,6 +279,8 @@ func btoi(b bool) int {
 func TestVerifC16Ctrl(t *testing.T) {
 	r := verifkit.Open(t, "C16")
 	defer r.Close()
+	// keep the 5 steps of retry.DefaultRetry, shorten only the sleep between conflict retries
+	retry.DefaultRetry.Duration = time.Microsecond
 	seen := map[string]bool{}
 	run := func(s verifc16.Scn) {
 		s.Mode = "ctrl"
@@ -304,7 +308,8 @@ func TestVerifC16Ctrl(t *testing.T) {
 	pass := verifc16.Op{Op: "pass"}
 	fp := func(f string) verifc16.Op { return verifc16.Op{Op: "pass", Fault: f} }
 	edit := func(f string, v int) verifc16.Op { return verifc16.Op{Op: "edit", F: f, V: v} }
-	faults := []string{"pull", "env", "pkgget", "odget0", "odget", "odcreate", "odupdate", "gc", "odget2", "status"}
+	faults := []string{"pull", "env", "pkgget", "odget0", "odget", "odcreate", "odupdate", "gc", "odget2", "status",
+		"conflict1", "conflict3", "conflict5"}
 	// image 0 is always a plain valid package; image 1 is the package under test
 	valid := verifc16.Pkg{Load: "ok", Render: "ok", Comps: true}
 	var under []verifc16.Pkg
